@@ -12,6 +12,12 @@ For a request `hess <h> <w> <bits…>` and the implementation's observation `ok 
         |H_ij| for i > j+1       <= 2^6 n u max(‖A‖_F, tiny)
     with u = 2^-53.  The last two are compared as squares (‖A‖_F² is rational, ‖A‖_F is not).
     The orthogonality bound does not scale with A (Q does not).
+  * the two consequences the statement names, with the slack the three bounds above imply (so they cannot fail
+    unless one of those is close to failing; they are judged separately so that each clause of the statement has
+    its own verdict): with b = 2^6 n u, E1 = QᵀQ − I, E2 = Q H Qᵀ − A,
+        tr A = tr(H QᵀQ) − tr E2 = tr H + tr(H E1) − tr E2   ⇒  |tr H − tr A| <= n b ‖A‖_F + n b ‖H‖_F
+        ‖A + E2‖_F = ‖Q H Qᵀ‖_F and ‖Q‖_2² <= 1 + n b            ⇒  ‖H‖_F within a factor (1 ± 4 n b) of ‖A‖_F,
+    checked as |tr H − tr A|² <= (4 n b)² ‖A‖_F² and |‖H‖_F² − ‖A‖_F²| <= 16 n b ‖A‖_F² (exact rationals).
 
 Tolerance: Householder reduction is backward stable with a constant of a few n u ‖A‖_F per reflector
 and n−2 reflectors; the largest observed value of any of the three quantities over the 110 000
@@ -24,9 +30,12 @@ import math, struct
 
 RULE = ("every family of the quantifier (dense, sparse with exact zeros incl. -0.0, already-Hessenberg columns, "
         "block-triangular (skip branch at k>0), zero sub-columns, symmetric, negative/zero leading sub-column entries, "
-        "all-skip (triangular/diagonal/zero), integer columns with exact norms, single sub-diagonal entries) at every "
-        "size n = 0..10, unscaled and scaled by 2^40, 2^-40 and a random power in between, plus all non-square shapes "
-        "0..5 x 0..5; non-trivial = the model answers ok with n >= 3 and Q is not the identity (at least one reflector "
+        "all-skip (triangular/diagonal/zero), integer columns with exact norms, single sub-diagonal entries, graded nearly "
+        "reduced columns (tail 1e-6..1e-170 or exactly 2^-20..2^-30 of the head, both signs of the head, after exactly "
+        "reduced columns), graded matrices D A D^-1) at every size n = 0..10 and a sample of them at every n = 11..40, "
+        "unscaled and scaled by 2^+-40, 2^60, 2^-70, 2^+-200, 2^+-300 and random powers in between, plus all non-square "
+        "shapes 0..5 x 0..5; every call repeated on the same borrowed input; "
+        "non-trivial = the model answers ok with n >= 3 and Q is not the identity (at least one reflector "
         "was applied); distinct = distinct request lines")
 
 U_EXP = -53          # u = 2^-53
@@ -104,6 +113,15 @@ def le2(am, ae, bm, be):
     return (am << (ae - e)) <= (bm << (be - e))
 
 
+def show(m, e):
+    """m * 2^e for a message (the value may be outside the binary64 range)"""
+    try:
+        return "%.3e" % (m * 2.0 ** e)
+    except OverflowError:
+        bl = abs(m).bit_length()
+        return "%.3f*2^%d" % (m / (1 << (bl - 1)), e + bl - 1)
+
+
 def ident(n):
     return IM(n, n, [1 if i == j else 0 for i in range(n) for j in range(n)], 0)
 
@@ -177,18 +195,28 @@ def oracle(req, impl):
         f2m, f2e = 1, TINY_EXP
     e1 = Q.T().mul(Q).sub(ident(n))
     if not le2(e1.maxabs(), e1.e, n, bexp):
-        return "QᵀQ − I exceeds 2^6 n u (max entry %.3e)" % (e1.maxabs() * 2.0 ** e1.e)
+        return "QᵀQ − I exceeds 2^6 n u (max entry %s)" % show(e1.maxabs(), e1.e)
     e2 = Q.mul(H).mul(Q.T()).sub(A)
     m2 = e2.maxabs()
     if not le2(m2 * m2, 2 * e2.e, n * n * f2m, 2 * bexp + f2e):
-        return "Q H Qᵀ − A exceeds 2^6 n u ‖A‖_F (max entry %.3e)" % (m2 * 2.0 ** e2.e)
+        return "Q H Qᵀ − A exceeds 2^6 n u ‖A‖_F (max entry %s)" % show(m2, e2.e)
     for i in range(n):
         for j in range(n):
             if i > j + 1:
                 x = abs(H.at(i, j))
                 if x and not le2(x * x, 2 * H.e, n * n * f2m, 2 * bexp + f2e):
-                    return "H[%d][%d] = %.3e is not zero to rounding (below the first sub-diagonal)" % (
-                        i, j, x * 2.0 ** H.e)
+                    return "H[%d][%d] = %s is not zero to rounding (below the first sub-diagonal; bound 2^6 n u ‖A‖_F)" % (
+                        i, j, show(x, H.e))
+    # consequences: trace and Frobenius norm preserved (slack implied by the three bounds above, see the docstring)
+    trd = IM(1, 1, [sum(H.at(i, i) for i in range(n))], H.e).sub(IM(1, 1, [sum(A.at(i, i) for i in range(n))], A.e))
+    t = abs(trd.a[0])
+    if t and not le2(t * t, 2 * trd.e, 16 * n * n * n * n * f2m, 2 * bexp + f2e):
+        return "trace not preserved: tr H − tr A = %s" % show(trd.a[0], trd.e)
+    hm, he = H.frob2()
+    am, ae = A.frob2()
+    fd = IM(1, 1, [hm], he).sub(IM(1, 1, [am], ae))
+    if fd.a[0] and not le2(abs(fd.a[0]), fd.e, 16 * n * n * f2m, bexp + f2e):
+        return "Frobenius norm not preserved: ‖H‖_F² − ‖A‖_F² = %s" % show(fd.a[0], fd.e)
     return None
 
 
